@@ -324,6 +324,8 @@ def f_and(*fs):
     for f in uniq:
         if f_not(f) in uniq and f != UNK:
             return FALSE
+    # absorption: a & (a | b) == a
+    uniq = [f for f in uniq if not (f[0] == 'or' and any(g in uniq for g in f[1]))]
     if not uniq:
         return TRUE
     if len(uniq) == 1:
@@ -349,6 +351,8 @@ def f_or(*fs):
     for f in uniq:
         if f_not(f) in uniq and f != UNK:
             return TRUE
+    # absorption: a | (a & b) == a
+    uniq = [f for f in uniq if not (f[0] == 'and' and any(g in uniq for g in f[1]))]
     if not uniq:
         return FALSE
     if len(uniq) == 1:
@@ -552,6 +556,16 @@ def eval_num(e, env):
         if d == 0:
             raise ZeroDivisionError
         return eval_num(e[1], env) / d
+    if t == 'red' and e[1] in ('std', 'std_sample', 'std_pop') and env.get('__identity__'):
+        # identity testing only: the variance is a strictly monotone surrogate of the standard deviation
+        vs = [eval_num(a, env) for a in e[2]]
+        m = sum(vs) / len(vs)
+        ss = sum((v - m) ** 2 for v in vs)
+        return ss / (len(vs) - (1 if e[1] == 'std_sample' else 0))
+    if t == 'red' and e[1] == 'median':
+        vs = sorted(eval_num(a, env) for a in e[2])
+        k = len(vs)
+        return vs[k // 2] if k % 2 else (vs[k // 2 - 1] + vs[k // 2]) / 2
     raise KeyError(t)
 
 
